@@ -1,6 +1,6 @@
 """C19 — kernel property: see DESIGN.md section 5 and harness/kprop.py.
 
-Seven parts (all run by `run`):
+Eight parts (all run by `run`):
  1. kernel correspondence + views oracle (harness/kprop.py, koracle.c19_views) on the feature templates of kgen;
  2. `meta_views`: class-graph edit histories, every view against Model/MetaViews.v and an independent closure;
  3. `subtree_scenarios` (implementation only, PRNG stream 'C19:subtrees'): random class hierarchies in which
@@ -56,6 +56,15 @@ Seven parts (all run by `run`):
     assignment the outcome (exception class), the content with order, eIsSet (by name and by feature), the
     containers / opposite ends / eContents, and the notifications received by the observers must be the same on
     the three routes; an assignment refused on all routes must have changed nothing.
+ 8. `observed_edit_scenarios` (PRNG stream 'C19:observed'): the classes of a small graph are edited (features appended,
+    inserted, extended, removed; super types added, removed) while ORDINARY EObservers are attached to them.  A
+    'looking' observer evaluates, from inside notifyChanged and without raising, the oracle "every feature that
+    eAllStructuralFeatures / findEStructuralFeature list is readable and writable through the three routes on the
+    instance created before the edits and on a new one; isinstance agrees with eAllSuperTypes; both agree with the
+    generator's description of the graph" for every class; a 'vetoing' observer raises on some notifications (the
+    edit call raises, the edit is stored: pyecore tells observers after the change) and the same oracle runs right
+    afterwards, as it does after every quiet edit.  (On the unchanged code the internal listeners of an EClass run
+    before the user's observers, so the state is consistent at all three moments.)
 """
 from harness import kgen, kprop
 
@@ -80,7 +89,8 @@ def replay(ctx, rep):
         return 0
     if case.get('scenario'):
         return common.scenario_replay(ctx, rep, {'subtrees': subtree_scenarios, 'generic': generic_scenarios,
-                                                 'containers': container_scenarios, 'assign': assign_scenarios})
+                                                 'containers': container_scenarios, 'assign': assign_scenarios,
+                                                 'observed': observed_edit_scenarios})
     r = krun.Run(case, ['C19']).run()
     for s in r.steps:
         print(s['op'], '->', s['outcome'])
@@ -1756,6 +1766,194 @@ def json_key(v):
     return json.dumps(v, sort_keys=True, default=str)
 
 
+# ---------------- 8. class edits watched by ordinary observers ----------------
+class _Veto(Exception):
+    pass
+
+
+def observed_edit_scenarios(ctx, out):
+    """see the module docstring, part 8"""
+    from harness import common
+    common.use_repo()
+    from pyecore import ecore as E
+    from pyecore.notification import EObserver
+    rng = common.rng_for(ctx.seed, 'C19:observed')
+    n = 300 if ctx.tier != 'thorough' else 5000
+    st = {'cases': 0, 'edits': 0, 'oracle_inside_notifyChanged': 0, 'oracle_after_observer_raised': 0, 'oracle_after_edit': 0,
+          'feature_accesses': 0, 'isinstance_checks': 0, 'notifications_seen': 0}
+    sample = None
+    for it in range(n):
+        ncls = rng.randrange(2, 6)
+        mode = rng.choice(['looks', 'looks', 'raises', 'raises', 'both'])
+        K = [E.EClass(f'K{i}') for i in range(ncls)]
+        sup = {i: [] for i in range(ncls)}
+        own = {i: [] for i in range(ncls)}         # dicts name kind target
+        fobj = {}
+        nextf = [0]
+        hist = [['case', it, ncls, mode]]
+        state = {'ok': True, 'inside': False}
+        problems = []
+
+        def closure(c):
+            return _closure(sup, c)
+
+        def mk_feature():
+            fid = nextf[0]
+            nextf[0] += 1
+            kind = rng.choice(['str', 'int', 'strs', 'ref'])
+            f = {'name': f'{kind[0]}{fid}', 'kind': kind, 'target': rng.randrange(ncls)}
+            fobj[f['name']] = (E.EAttribute(f['name'], E.EString) if kind == 'str' else E.EAttribute(f['name'], E.EInt) if kind == 'int'
+                               else E.EAttribute(f['name'], E.EString, upper=-1) if kind == 'strs' else E.EReference(f['name'], K[f['target']]))
+            return f
+
+        old = {}                                    # class -> instance created before the edits
+
+        def oracle(when):
+            """the views of every class agree with the description AND with what instances (old, fresh) can do"""
+            st['oracle_' + when] += 1
+            for c in range(ncls):
+                ec = K[c]
+                anc = closure(c)
+                want = sorted(f['name'] for d in [c] + anc for f in own[d])
+                allf = list(ec.eAllStructuralFeatures())
+                names = sorted(getattr(x, 'name', repr(x)) for x in allf)
+                sups = sorted(K.index(x) if x in K else -1 for x in ec.eAllSuperTypes())
+                if names != want:
+                    return problems.append(('views', when, f'K{c}.eAllStructuralFeatures() = {names}, own+inherited declarations {want}'))
+                if sups != sorted(anc):
+                    return problems.append(('views', when, f'K{c}.eAllSuperTypes() = {sups}, inherits from {sorted(anc)}'))
+                for who, o in (('the instance created before the edits', old[c]), ('a new instance', ec())):
+                    for d in range(ncls):
+                        st['isinstance_checks'] += 1
+                        if d != c and (isinstance(o, K[d]) != (d in anc) or isinstance(o, K[d].python_class) != (d in anc)):
+                            return problems.append(('isinstance', when, f'K{d} {"is" if d in anc else "is not"} in K{c}.eAllSuperTypes() but '
+                                                                        f'isinstance({who} of K{c}, K{d}) = {isinstance(o, K[d])}'))
+                    for x in allf:
+                        nm = x.name
+                        f = next(f for d in [c] + anc for f in own[d] if f['name'] == nm)
+                        st['feature_accesses'] += 1
+                        if ec.findEStructuralFeature(nm) is not x:
+                            return problems.append(('find', when, f'K{c}.findEStructuralFeature({nm!r}) is not the feature of eAllStructuralFeatures()'))
+                        try:
+                            r = [getattr(o, nm), o.eGet(nm), o.eGet(x)]
+                            if f['kind'] == 'strs':
+                                r[rng.randrange(3)].append('w')
+                                v, got = None, [list(getattr(o, nm))[-1:], list(o.eGet(nm))[-1:], list(o.eGet(x))[-1:]]
+                                same = got == [['w']] * 3
+                            else:
+                                v = 'v' if f['kind'] == 'str' else 3 if f['kind'] == 'int' else K[f['target']]()
+                                route = rng.choice(ONE_IN)
+                                if route == 'attr':
+                                    setattr(o, nm, v)
+                                else:
+                                    o.eSet(nm if route == 'eSet-name' else x, v)
+                                got = [getattr(o, nm), o.eGet(nm), o.eGet(x)]
+                                same = all(g is v or (f['kind'] != 'ref' and g == v) for g in got)
+                            if not same:
+                                return problems.append(('access-paths', when, f'{who} of K{c}: wrote {v!r} to {nm!r}, the three read paths give {got}'))
+                        except Exception as e:  # noqa
+                            return problems.append(('attribute-access', when, f'K{c} describes feature {nm!r} (eAllStructuralFeatures, findEStructuralFeature) '
+                                                                              f'but {who} cannot use it: {type(e).__name__}: {e}'))
+
+        def looks(nt):
+            st['notifications_seen'] += 1
+            if nt.feature in (E.EClass.eStructuralFeatures, E.EClass.eSuperTypes) and not state['inside']:
+                state['inside'] = True           # (the oracle itself creates instances; no nested evaluation)
+                try:
+                    oracle('inside_notifyChanged')
+                finally:
+                    state['inside'] = False
+
+        def vetoes(nt):
+            st['notifications_seen'] += 1
+            if nt.feature in (E.EClass.eStructuralFeatures, E.EClass.eSuperTypes) and state.get('veto'):
+                raise _Veto(nt.kind.name)
+
+        def edit(label, describe, call):
+            """the description changes first (observers are told when the edit is already stored), then the call"""
+            hist.append(label)
+            describe()
+            state['veto'] = mode != 'looks' and rng.random() < 0.6
+            raised = None
+            try:
+                call()
+            except _Veto:
+                raised = 'veto'
+            hist[-1] = label + [raised]
+            st['edits'] += 1
+            oracle('after_observer_raised' if raised else 'after_edit')
+            if problems:
+                kind, when, what = problems[0]
+                case = {'scenario': 'observed', 'seed': ctx.seed, 'tier': ctx.tier, 'history': [list(h) for h in hist]}
+                out.fail({'property': 'C19', 'clause': 'views-vs-instances-under-observer', 'scenario': 'observed', 'what': kind,
+                          'when': when.replace('_', '-')},
+                         f'{when.replace("_", " ")}: {what} (super types {sup}, observers {mode}) at {hist[-1]}', case)
+                state['ok'] = False
+
+        # initial graph, built before any observer is attached
+        for i in range(ncls):
+            for j in rng.sample(range(i + 1, ncls), min(ncls - i - 1, rng.choice([0, 1, 1]))):
+                K[i].eSuperTypes.append(K[j])
+                sup[i].append(j)
+        for c in range(ncls):
+            for _ in range(rng.choice([0, 1])):
+                f = mk_feature()
+                K[c].eStructuralFeatures.append(fobj[f['name']])
+                own[c].append(f)
+        hist.append(['initial', {str(k): v for k, v in sup.items()}, {str(k): [f['name'] for f in v] for k, v in own.items()}])
+        for c in range(ncls):
+            old[c] = K[c]()
+            obs = ([looks] if mode == 'looks' else [vetoes] if mode == 'raises' else rng.sample([looks, vetoes], 2))
+            for fn in obs:
+                EObserver(K[c], notifyChanged=fn)
+        for step in range(rng.randrange(2, 7)):
+            if not state['ok']:
+                break
+            k = rng.choice(['add-feature', 'add-feature', 'add-features', 'add-super', 'add-super', 'remove-super', 'remove-feature'])
+            c = rng.randrange(ncls)
+            if k == 'add-feature':
+                f = mk_feature()
+                how = rng.choice(['append', 'insert0'])
+                edit([k, c, f['name'], how], lambda: own[c].append(f),
+                     (lambda: K[c].eStructuralFeatures.append(fobj[f['name']])) if how == 'append'
+                     else (lambda: K[c].eStructuralFeatures.insert(0, fobj[f['name']])))
+            elif k == 'add-features':
+                fs = [mk_feature(), mk_feature()]
+                edit([k, c, [f['name'] for f in fs]], lambda: own[c].extend(fs),
+                     lambda: K[c].eStructuralFeatures.extend([fobj[f['name']] for f in fs]))
+            elif k == 'add-super':
+                d = rng.randrange(ncls)
+                if d == c or d in sup[c] or c in closure(d):
+                    continue
+                trial = {x: list(v) for x, v in sup.items()}
+                trial[c].append(d)
+                if _plain_mro(trial, ncls) is None:
+                    continue
+                edit([k, c, d], lambda: sup[c].append(d), lambda: K[c].eSuperTypes.append(K[d]))
+            elif k == 'remove-super':
+                if not sup[c]:
+                    continue
+                d = rng.choice(sup[c])
+                edit([k, c, d], lambda: sup[c].remove(d), lambda: K[c].eSuperTypes.remove(K[d]))
+            else:
+                if not own[c]:
+                    continue
+                f = rng.choice(own[c])
+                edit([k, c, f['name']], lambda: own[c].remove(f), lambda: K[c].eStructuralFeatures.remove(fobj[f['name']]))
+        st['cases'] += 1
+        if sample is None and state['ok'] and len(hist) > 4:
+            sample = {'scenario': 'observed', 'history': [list(h) for h in hist]}
+    out.coverage['observed_cases'] = st['cases']
+    out.coverage['observed_edits'] = st['edits']
+    out.coverage['observed_notifications_seen_by_user_observers'] = st['notifications_seen']
+    out.coverage['observed_oracle_runs_inside_notifyChanged'] = st['oracle_inside_notifyChanged']
+    out.coverage['observed_oracle_runs_after_an_observer_raised'] = st['oracle_after_observer_raised']
+    out.coverage['observed_oracle_runs_after_a_quiet_edit'] = st['oracle_after_edit']
+    out.coverage['observed_feature_accesses_on_instances'] = st['feature_accesses']
+    out.coverage['observed_isinstance_checks'] = st['isinstance_checks']
+    out.coverage['observed_sample'] = sample
+
+
 _run3 = run
 
 
@@ -1766,3 +1964,4 @@ def run(ctx, out):   # noqa: F811
     generic_scenarios(ctx, out)
     container_scenarios(ctx, out)
     assign_scenarios(ctx, out)
+    observed_edit_scenarios(ctx, out)
